@@ -1642,6 +1642,18 @@ def Lam.seqMethods : Lam → Bool
   | .pair a b => a.seqMethods || b.seqMethods
   | .first _ _ | .last _ _ | .single _ | .sum _ | .whereIn _ _ | .selectIn _ _ | .takeIn _ _ => true
 
+/-- does the lambda take the `len` of a sub-expression?  (`lenV` measures a set, which a context made with `no_sets` cannot) -/
+def Lam.usesLen : Lam → Bool
+  | .arg | .const _ => false
+  | .len _ => true
+  | .add l _ | .mul l _ | .mod l _ | .gt l _ | .eq l _ | .member l _ | .index l _ | .not l | .strOf l | .half l
+  | .rangeOf l | .first l _ | .last l _ | .single l | .sum l | .takeIn l _ => l.usesLen
+  | .pair a b | .whereIn a b | .selectIn a b => a.usesLen || b.usesLen
+
+def Lam2.usesLen : Lam2 → Bool
+  | .on1 l | .on2 l | .plusOn l => l.usesLen
+  | _ => false
+
 def Lam2.seqMethods : Lam2 → Bool
   | .on1 l | .on2 l | .plusOn l => l.seqMethods
   | _ => false
@@ -1658,6 +1670,33 @@ def Op.lamSeqMethods : Op → Bool
   | .generate a b c _ _ => a.seqMethods || b.seqMethods || (c.map Lam.seqMethods).getD false
   | .generateManyTake a b _ _ _ => a.seqMethods || (b.map Lam.seqMethods).getD false
   | _ => false
+
+def Op.lamUsesLen : Op → Bool
+  | .where_ l | .select l | .selectMany l | .orderBy l | .orderByDescending l | .thenBy l | .thenByDescending l
+  | .takeWhile l | .skipWhile l | .indexWhere l | .lastIndexWhere l | .splitWhere l | .sliceWhere l => l.usesLen
+  | .distinct l | .any_ l | .all_ l => (l.map Lam.usesLen).getD false
+  | .groupBy k v a => k.usesLen || (v.map Lam.usesLen).getD false || (a.map Lam.usesLen).getD false
+  | .toDict k v => k.usesLen || (v.map Lam.usesLen).getD false
+  | .join _ f g | .joinRoot f g => f.usesLen || g.usesLen
+  | .aggregate f _ | .accumulate f _ => f.usesLen
+  | .mergeWith _ f g _ => (f.map Lam2.usesLen).getD false || (g.map Lam2.usesLen).getD false
+  | .generate a b c _ _ => a.usesLen || b.usesLen || (c.map Lam.usesLen).getD false
+  | .generateManyTake a b _ _ _ => a.usesLen || (b.map Lam.usesLen).getD false
+  | _ => false
+
+mutual
+def holdsSet : Value → Bool
+  | Value.set _ => true
+  | tuple l | list l | iter l => holdsSetL l
+  | dict d => holdsSetP d
+  | _ => false
+def holdsSetL : List Value → Bool
+  | [] => false
+  | x :: xs => holdsSet x || holdsSetL xs
+def holdsSetP : List (Value × Value) → Bool
+  | [] => false
+  | (k, v) :: r => holdsSet k || holdsSet v || holdsSetP r
+end
 
 mutual
 def holdsDict : Value → Bool
@@ -1768,7 +1807,10 @@ def runOpCore (opts : Opts) (op : Op) (o : Obj) : R Obj := do
 def runOp (opts : Opts) (op : Op) (o : Obj) : R Obj :=
   match (if opts.noSets then noSetsErr op o else none) with
   | some e => .error e
-  | none => runOpCore opts op o
+  | none =>
+    -- (`len` inside a lambda on a set that is an ELEMENT: `lenV` does not know the flag)
+    if opts.noSets && op.lamUsesLen && holdsSetL o.parts then .error .outOfDomain
+    else runOpCore opts op o
 
 /-- the elements every fresh iteration of the expression's own `$` yields, when `$` can be iterated
     more than once: a sequence / input set, or a one-shot iterator that was memorized by the binder
@@ -1838,10 +1880,11 @@ def rootOf (opts : Opts) (binder : Option Op) (data : Value) : Option VL :=
 
 /-- the stages of a pipeline, before finalisation -/
 def runStages (opts : Opts) (binder : Option Op) (ops : List Op) (data : Value) : R Obj := do
+  -- (the binder of `let(..) -> ..` is evaluated before the body)
+  let root ← rootObj opts binder data
   -- in a context without the set functions an unknown function among the stages is met first, whatever the stages inside
   -- it would do
   if opts.noSets && ops.any Op.functionStyleSet then .error .unknownFunction
-  let root ← rootObj opts binder data
   -- a second consumer of `$` under a limit / over a raw dictionary is not followed
   ops.foldlM (fun o op => runOpR opts (rootOf opts binder data) op o) root
 
